@@ -344,3 +344,52 @@ contract(AC + ".get_capabilities",
                   "first_page_kept_if_second_fails": "implies(len(S) == 2 and not isinstance(R[1], CapabilitiesResponse), len(A) == 1 and A[0] == R[0]._capabilities)",
                   "second_page_is_additional": "implies(len(S) >= 2, isinstance(S[1], GetCapabilitiesCommand) and S[1]._additional == True)",
                   "at_most_two": "len(S) <= 2"})
+
+
+# ---- C10: what the user sets is what apply() later encodes: every state setter stores exactly the given value and touches nothing else ----
+contract(AC + ".beep!setter",
+         params={"self": "obj:" + AC, "tone": "bool"},
+         assigns={"self._beep_on": "tone"}, raises={})
+contract(AC + ".power_state!setter",
+         params={"self": "obj:" + AC, "state": "bool"},
+         assigns={"self._power_state": "state"}, raises={})
+contract(AC + ".fahrenheit!setter",
+         params={"self": "obj:" + AC, "enabled": "bool"},
+         assigns={"self._fahrenheit_unit": "enabled"}, raises={})
+contract(AC + ".target_temperature!setter",
+         params={"self": "obj:" + AC, "temperature_celsius": "float"},
+         assigns={"self._target_temperature": "temperature_celsius"}, raises={})
+contract(AC + ".operational_mode!setter",
+         params={"self": "obj:" + AC, "mode": "enum:" + AC + ".OperationalMode"},
+         assigns={"self._operational_mode": "mode"}, raises={})
+contract(AC + ".swing_mode!setter",
+         params={"self": "obj:" + AC, "mode": "enum:" + AC + ".SwingMode"},
+         assigns={"self._swing_mode": "mode"}, raises={})
+contract(AC + ".eco!setter",
+         params={"self": "obj:" + AC, "enabled": "bool"},
+         assigns={"self._eco": "enabled"}, raises={})
+contract(AC + ".turbo!setter",
+         params={"self": "obj:" + AC, "enabled": "bool"},
+         assigns={"self._turbo": "enabled"}, raises={})
+contract(AC + ".freeze_protection!setter",
+         params={"self": "obj:" + AC, "enabled": "bool"},
+         assigns={"self._freeze_protection": "enabled"}, raises={})
+contract(AC + ".sleep!setter",
+         params={"self": "obj:" + AC, "enabled": "bool"},
+         assigns={"self._sleep": "enabled"}, raises={})
+contract(AC + ".follow_me!setter",
+         params={"self": "obj:" + AC, "enabled": "bool"},
+         assigns={"self._follow_me": "enabled"}, raises={})
+contract(AC + ".purifier!setter",
+         params={"self": "obj:" + AC, "enabled": "bool"},
+         assigns={"self._purifier": "enabled"}, raises={})
+contract(AC + ".target_humidity!setter",
+         params={"self": "obj:" + AC, "humidity": "int[0,100]"},
+         assigns={"self._target_humidity": "humidity"}, raises={})
+contract(AC + ".aux_mode!setter",
+         params={"self": "obj:" + AC, "mode": "enum:" + AC + ".AuxHeatMode"},
+         assigns={"self._aux_mode": "mode"}, raises={})
+contract(AC + ".fan_speed!setter",
+         params={"self": "obj:" + AC, "speed": "union:enum:" + AC + ".FanSpeed|int[0,255]|float"},
+         assigns={"self._fan_speed": "int(speed) if isinstance(speed, float) else speed"}, raises={},
+         notes="custom speeds are stored as given (1..100 percentages and the raw values 101, 102 alike); floats are truncated")
